@@ -556,7 +556,8 @@ func (s *Sim) Yield(point string, obj interface{}) {
 			t.lockDepth--
 		}
 	}
-	if strings.HasPrefix(point, "auto.loop:") || point == "atom.swap.retry" {
+	isLoop := strings.HasPrefix(point, "auto.loop:")
+	if isLoop || point == "atom.swap.retry" {
 		// an iteration of a Go-level loop in the evaluator: it costs simulated time like an evaluation step
 		// and is shown to the step hook, so that a loop that never reaches the evaluation loop again is
 		// neither free nor invisible
@@ -573,8 +574,11 @@ func (s *Sim) Yield(point string, obj interface{}) {
 			synctest.Wait()
 			raceOn()
 		}
-		s.hookPoint(t, "auto.loop", false)
-		return
+		if isLoop {
+			s.hookPoint(t, "auto.loop", false)
+			return
+		}
+		// (a retry round of swap! is charged like a loop iteration and then treated as the named window it is)
 	}
 	for _, rp := range s.RecPoints {
 		if rp == point {
